@@ -110,6 +110,9 @@ impl Report {
     pub fn record(&mut self, o: &Outcome, case: impl FnOnce() -> Value) {
         self.evaluations += 1;
         self.class(&o.class);
+        for c in &o.also {
+            self.class(c);
+        }
         if o.nontrivial {
             self.nontrivial.insert(o.fingerprint);
             let c = o.class.clone();
@@ -182,6 +185,8 @@ pub struct Fail {
 
 #[derive(Clone, Debug)]
 pub struct Outcome {
+    /// further class labels to count for this case (the case exercised several classes)
+    pub also: Vec<String>,
     pub class: String,
     pub nontrivial: bool,
     pub fingerprint: u64,
@@ -189,14 +194,19 @@ pub struct Outcome {
 }
 
 impl Outcome {
+    pub fn with_also(mut self, also: Vec<String>) -> Self {
+        self.also = also;
+        self
+    }
     pub fn pass(class: impl Into<String>, nontrivial: bool, fingerprint: u64) -> Self {
-        Outcome { class: class.into(), nontrivial, fingerprint, fail: None }
+        Outcome { also: Vec::new(), class: class.into(), nontrivial, fingerprint, fail: None }
     }
     pub fn trivial(class: impl Into<String>) -> Self {
-        Outcome { class: class.into(), nontrivial: false, fingerprint: 0, fail: None }
+        Outcome { also: Vec::new(), class: class.into(), nontrivial: false, fingerprint: 0, fail: None }
     }
     pub fn failed(class: impl Into<String>, fingerprint: u64, sig: impl Into<String>, what: impl Into<String>) -> Self {
         Outcome {
+            also: Vec::new(),
             class: class.into(),
             nontrivial: true,
             fingerprint,
